@@ -150,4 +150,9 @@ func fbb.(*Message).Bytes(m) (data, err)
   props C09
   trusted
   pure
+
+func fbb.(*Message).IsOnlyReceiver(m, addr) (r)
+  props C10 C09
+  trusted
+  pure
 @*/
